@@ -9,7 +9,10 @@
  * descriptors take precedence and leave signals pending; revents is written for every
  * slot on every call).
  *
- * Case line:   cb0=<act>,<act>,.. cb1=.. <op> <op> ...
+ * Case line:   cb0=<act>,<act>,.. cb1=.. ub0=<act>,.. <op> <op> ...
+ *   cb<k> = what callback k does when invoked with TICKIT_EV_FIRE; ub<k> = what it does when it
+ *   is invoked with the bare TICKIT_EV_UNBIND of tickit_watch_cancel (registrations only: a
+ *   c<id> there is ignored)
  *   actions / ops:
  *     t<delta>:<fl>:<cb>       tickit_watch_timer_at_tv(now+delta usec)
  *     l<fl>:<cb>               tickit_watch_later
@@ -58,7 +61,7 @@ struct W { int id, kind, cb, live; long long x; void *watch; };
 static Tickit *T;
 static struct W ws[MAXW];
 static int nws;
-static char *cbs[MAXCB];
+static char *cbs[MAXCB], *ubs[MAXCB];
 static long long vclock;
 static int iter;
 static int fds[NFD];            /* read ends of pipes */
@@ -126,6 +129,8 @@ static int on_ev(Tickit *t, TickitEventFlags flags, void *info, void *user)
   if(flags & (TICKIT_EV_UNBIND | TICKIT_EV_DESTROY)) w->live = 0;
   if((flags & TICKIT_EV_FIRE) && w->cb >= 0 && w->cb < MAXCB && cbs[w->cb])
     run_acts(cbs[w->cb], 0);
+  if(flags == TICKIT_EV_UNBIND && w->cb >= 0 && w->cb < MAXCB && ubs[w->cb])
+    run_acts(ubs[w->cb], 2);
   return 0;
 }
 
@@ -210,8 +215,10 @@ static void run_acts(const char *acts, int toplevel)
   char buf[512];
   strncpy(buf, acts, sizeof buf - 1); buf[sizeof buf - 1] = 0;
   char *save = NULL;
-  for(char *a = strtok_r(buf, ",", &save); a; a = strtok_r(NULL, ",", &save))
+  for(char *a = strtok_r(buf, ",", &save); a; a = strtok_r(NULL, ",", &save)) {
+    if(toplevel == 2 && a[0] == 'c') continue;   /* no cancel from inside an unbind notification */
     do_act(a);
+  }
 }
 
 static void loop_case(void)
@@ -219,15 +226,15 @@ static void loop_case(void)
   size_t heap_before = __sanitizer_get_current_allocated_bytes();
   outn = 0; out[0] = 0;
   nws = 0; vclock = 0; iter = 0; ninwait = 0; sleep_mode = 0;
-  for(int i = 0; i < MAXCB; i++) cbs[i] = NULL;
+  for(int i = 0; i < MAXCB; i++) cbs[i] = ubs[i] = NULL;
   for(int j = 0; j < NFD; j++) ready[j] = 0;
   T = tickit_build(&(struct TickitBuilder){ .tt = (TickitTerm *)tickit_mockterm_new(2, 2) });
   for(int i = 0; i < vh_ntok; i++) {
     char *a = vh_tok[i];
-    if(a[0] == 'c' && a[1] == 'b') {
+    if((a[0] == 'c' || a[0] == 'u') && a[1] == 'b') {
       char *eq = strchr(a, '=');
       int k = atoi(a + 2);
-      if(eq && k >= 0 && k < MAXCB) cbs[k] = eq + 1;
+      if(eq && k >= 0 && k < MAXCB) { if(a[0] == 'c') cbs[k] = eq + 1; else ubs[k] = eq + 1; }
       continue;
     }
     if(do_act(a)) continue;
